@@ -56,6 +56,7 @@ type genState struct {
 	held   bool
 	nss    []string
 	wide   bool
+	noHold bool
 }
 
 var (
@@ -383,13 +384,14 @@ func gen(stream string, seed uint64, n int, outp string) {
 			continue
 		}
 		g.wide = r.Chance(1, 3)
+		g.noHold = r.Chance(3, 5) // most histories are handled write by write (the class of the theorems)
 		withNodes := r.Chance(1, 3)
 		length := 2 + r.Intn(14)
 		if r.Chance(1, 10) {
 			length += 15
 		}
 		for i := 0; i < length; i++ {
-			if r.Chance(1, 8) {
+			if !g.noHold && r.Chance(1, 8) {
 				if g.held {
 					g.emit("release")
 				} else {
@@ -580,8 +582,9 @@ func (g *genState) simCase() {
 	for _, s := range streams {
 		remaining += len(s)
 	}
+	simHold := r.Chance(1, 3)
 	for remaining > 0 {
-		if r.Chance(1, 12) {
+		if simHold && r.Chance(1, 12) {
 			if g.held {
 				g.emit("release")
 			} else {
